@@ -29,7 +29,7 @@ MECH = ["nutree.dot:node_to_dot", "nutree.dot:tree_to_dotfile", "nutree.mermaid:
 MIN_NONTRIVIAL = {"quick": 300, "thorough": 3000}
 EXHAUSTIVE = {"quick": True, "thorough": True}
 FLAVOURS = ["str", "int", "ids"]
-KINDS = ["k1", "k2", "k3"]
+KINDS = ["k1", "k2", "enth\u00e4lt"]  # one kind with a non-ASCII character
 
 
 def build(case):
@@ -40,13 +40,17 @@ def build(case):
     rng = rng_for(case["seed"], "c17", case["f"], case["flavour"], case["cls"])
     n = gen.size(f)
     typed = case["cls"] == "typed"
-    t = (TypedTree if typed else Tree)("TNAME")
+    if case.get("ext"):
+        X = gen.ext_classes()  # node classes of the user (subclasses of Node / TypedNode with a `name` of their own)
+        t = (X["XTypedTree"] if typed else X["XTree"])("TNAME")
+    else:
+        t = (TypedTree if typed else Tree)("TNAME")
     kind = (lambda i: KINDS[rng.randrange(3)]) if typed else None
     kinds = [KINDS[rng.randrange(3)] for _ in range(n)]
     kind = (lambda i: kinds[i]) if typed else None
     fl = case["flavour"]
     if fl == "str":
-        labs = gen.clone_labeling(rng, f, ["a", "b", "c", "d"]) or [f"n{i}" for i in range(n)]
+        labs = gen.clone_labeling(rng, f, ["a", "b", "Z\u00fcrich", "km\u00b2"]) or [f"n{i}" for i in range(n)]
         nodes = gen.build(t, f, lambda i: labs[i], kind=kind)
     elif fl == "int":
         labs = gen.clone_labeling(rng, f, [0, 1, 2, 3]) or list(range(n))
@@ -178,7 +182,7 @@ def run_case(case, res):
                                 bad.append(f"DOT edges (unique={unique}, add_self={add_self}, root={isroot}): got {dict(ge)}, expected {dict(exp_edges)}")
                             for x in D:
                                 labs = gn.get(str(key(x)), set())
-                                if str(x.data) not in labs:
+                                if x.name not in labs:
                                     bad.append(f"DOT node {key(x)} lacks label {x.data!r}: {labs}")
                             if isroot and add_self and "TNAME" not in gn.get(str(key(start)), set()):
                                 bad.append("DOT root node lacks the tree name as label")
@@ -195,8 +199,8 @@ def run_case(case, res):
                             names, medges, mroot = parse_mermaid(fp.getvalue())
                             if len(names) != len(exp_nodes):
                                 bad.append(f"Mermaid defines {len(names)} nodes, expected {len(exp_nodes)} (unique={unique}, add_self={add_self}, root={isroot})")
-                            name_of_key = {str(key(x)): str(x.data) for x in D}
-                            name_of_key[str(key(start))] = "TNAME" if isroot else str(start.data)
+                            name_of_key = {str(key(x)): x.name for x in D}
+                            name_of_key[str(key(start))] = "TNAME" if isroot else start.name
                             exp_m = Counter((name_of_key[a], name_of_key[b], k) for (a, b, k), c in exp_edges.items() for _ in range(c))
                             got_m = Counter((names.get(a), names.get(b), k) for a, b, k in medges)
                             if got_m != exp_m:
@@ -214,7 +218,7 @@ def run_case(case, res):
                                     return (names[i], [gshape(j) for j in kidsof.get(i, [])])
 
                                 def tshape(x):
-                                    return (str(x.data), [tshape(c) for c in x.children])
+                                    return (x.name, [tshape(c) for c in x.children])
 
                                 if add_self:
                                     rootidx = [i for i in names if indeg[i] == 0]
@@ -222,7 +226,7 @@ def run_case(case, res):
                                         bad.append(f"Mermaid (unique_nodes=False, add_self): {len(rootidx)} graph roots")
                                     else:
                                         g = gshape(rootidx[0])
-                                        e = ("TNAME" if isroot else str(start.data), [tshape(c) for c in start.children])
+                                        e = ("TNAME" if isroot else start.name, [tshape(c) for c in start.children])
                                         if g != e:
                                             bad.append(f"Mermaid shape differs: {g} vs {e}")
                                             res.count("mermaid_shape_mismatch")
@@ -252,11 +256,11 @@ def run_case(case, res):
                     if got != exp:
                         bad.append(f"RDF has_child (root={isroot}, add_self={add_self}): got {sorted(map(str, got))}, expected {sorted(map(str, exp))}")
                     gotn = {(s, o) for s, p, o in g.triples((None, NUTREE_NS.name, None))}
-                    expn = {(Literal(x.data_id), Literal(str(x.data))) for x in D}
+                    expn = {(Literal(x.data_id), Literal(x.name)) for x in D}
                     if isroot:
                         expn.add((rootref, Literal("TNAME")))
                     elif add_self:
-                        expn.add((Literal(start.data_id), Literal(str(start.data))))
+                        expn.add((Literal(start.data_id), Literal(start.name)))
                     if gotn != expn:
                         bad.append(f"RDF name triples (root={isroot}, add_self={add_self}): got {sorted(map(str, gotn))}, expected {sorted(map(str, expn))}")
                     if not isroot:
@@ -380,6 +384,8 @@ def run_shard(spec, res):
                 for cls in ("plain", "typed"):
                     for fl in FLAVOURS:
                         run_case({"cls": cls, "f": gen.code(f), "flavour": fl, "seed": seed}, res)
+                        if n >= 2 and k % 3 == 0:
+                            run_case({"cls": cls, "f": gen.code(f), "flavour": fl, "seed": seed, "ext": True}, res)
                 if res.expired():
                     res.count("exhaustive_cut")
                     res.inconc("enumeration cut by time budget")
@@ -389,6 +395,6 @@ def run_shard(spec, res):
         for j in range(spec["count"]):
             f = gen.random_forest(rng, rng.randint(6, 20))
             run_case({"cls": rng.choice(["plain", "typed"]), "f": gen.code(f), "flavour": rng.choice(FLAVOURS),
-                      "seed": rng.randrange(10**6)}, res)
+                      "seed": rng.randrange(10**6), "ext": rng.random() < 0.3}, res)
             if res.expired():
                 break
